@@ -25,6 +25,26 @@ CLAIMED = {
              "the code per printed node name (one evaluation per name and update): that equivalence is validated by correspondence only.",
         technique="Lean 4 proof (per-operator stream invariants + structural induction) + source-derived table + differential correspondence",
         design="DESIGN.md §4 C02"),
+    "C03": dict(
+        text="Machine-checked proof (Lean 4) about the mirror of rtamt's horizon visitor and pastifier: pastify is the identity on "
+             "future-free specifications, its result has no future operator, and on the fragment `frag` (bounded future; past/event "
+             "operators over future-free operands) the online monitor of the pastified specification returns, at every update "
+             "i >= hor, rho of the original at i-hor on the trace seen so far. The full statement is proved false for the algorithm "
+             "(C03_counterexample, known finding F15, replayed on the real code each run). Tied to /repo by the regenerated visitor "
+             "table and by correspondence: spec_print() after pastify() vs the model's pastify, update() stream vs mirror, oracle = "
+             "offline evaluate() of the original on each prefix.",
+        note="Lean kernel + standard axioms; partial: fragment hypothesis; bounds in the default unit only (explicit units: F17); "
+             "no NaN; correspondence sampled.",
+        technique="Lean 4 proof (invariant over the remaining horizon, structural induction) + source-derived table + differential correspondence",
+        design="DESIGN.md §4 C03"),
+    "C16": dict(
+        text="Machine-checked proof (Lean 4) that rho(phi,w,t) of a specification without unbounded future is determined by the "
+             "samples 0..t+hor(phi) (any two trace lengths, any continuation), transferred to the offline evaluator through C01; "
+             "correspondence: evaluate() on a trace and on random extensions, compared at all settled positions and with rho.",
+        note="Lean kernel + standard axioms; discrete time proved; dense time covered by the metamorphic correspondence stream only "
+             "until the dense model carries the theorem; tie sampled.",
+        technique="Lean 4 proof by structural induction on the formula + metamorphic correspondence",
+        design="DESIGN.md §4 C16"),
 }
 
 NOT_YET = {}
